@@ -68,6 +68,7 @@ def handlers : List (String × (Json → Except String Json)) := [
   ("C01.matmul_dia", Qv.Drv.C01.matmulDiaJ),
   ("C01.transpose_dia", Qv.Drv.C01.transposeDiaJ),
   ("C01.iadd_dense", Qv.Drv.C01.iaddDenseJ),
+  ("C01.matmul_csr_dense", Qv.Drv.C01.matmulCsrDenseJ),
   ("C01.dia_of_dense", Qv.Drv.C01.diaOfDenseJ)
 ]
 
